@@ -814,6 +814,65 @@ class ClsProxy:
         raise OutOfSubset('attribute %s of the class is not modelled' % k)
 
 
+def vc_dict(x=None, **kw):
+    """dict(): dict(d) of a heap dict is a NEW dict with the same (key, value reference) pairs; otherwise python's dict"""
+    if isinstance(x, SVal):
+        x = x._d('dict()')
+    if isinstance(x, SDict):
+        d = x.copy()
+        for k, v in kw.items():
+            d[k] = v
+        return d
+    if isinstance(x, Sym):
+        raise OutOfSubset('dict(%s)' % type(x).__name__)
+    return dict(x, **kw) if x is not None else dict(**kw)
+
+
+vc_dict._vc_models = dict
+
+
+class TreeCls:
+    """the class object `cls` of an analysed classmethod, read from the tree: class-level constants (instrument.class_constants; a dict constant becomes a
+    dict on the symbolic heap that EXISTS BEFORE the call, so aliasing with it is visible) and sibling methods (the real bodies, inlined by engine.inline)"""
+
+    def __init__(self, cx, spec, **stubs):
+        d = self.__dict__
+        d['_cx'], d['_spec'], d['_attrs'] = cx, spec, dict(stubs)
+        d['__name__'] = spec.split('::')[1]
+        for k, v in instrument.class_constants(spec, cx.vc.repo).items():
+            if isinstance(v, dict):
+                v = cx.H.new_dict(list(v.items()), name='class.' + k)
+            elif isinstance(v, (list, set)):
+                continue            # mutable class constants other than dicts are not modelled (access -> OutOfSubset)
+            self._attrs.setdefault(k, v)
+
+    def class_dicts(self):
+        return [v for v in self._attrs.values() if isinstance(v, SDict)]
+
+    def __getattr__(self, k):
+        if k.startswith('_vc_') or k.startswith('__'):
+            raise AttributeError(k)
+        if k in self._attrs:
+            return self._attrs[k]
+        from pyvc.engine import inline
+        path, qual = self._spec.split('::')
+        src, tree = instrument._parse(path, self._cx.vc.repo)
+        cnode = next((n for n in tree.body if isinstance(n, ast.ClassDef) and n.name == qual), None)
+        fn = next((n for n in (cnode.body if cnode else []) if isinstance(n, ast.FunctionDef) and n.name == k), None)
+        if fn is None:
+            raise OutOfSubset('attribute %s of class %s is not a constant or method in the tree' % (k, qual))
+        decs = [ast.unparse(x) for x in fn.decorator_list]
+        real = inline(self._cx.vc, '%s.%s' % (self._spec, k))
+        if 'classmethod' in decs:
+            return lambda *a, **kw: real(self, *a, **kw)
+        if 'staticmethod' in decs:
+            return real
+        raise OutOfSubset('instance method %s.%s reached through the class' % (qual, k))
+
+    def __setattr__(self, k, v):
+        raise OutOfSubset('assignment to a class attribute')
+
+
 # ====================================================================== spec of the execution order (shared by execute and get_execution_order)
 def has_op(th, g, h):
     return lambda x: nd_has(th, g, h, x, 'operation')
@@ -1911,18 +1970,21 @@ class AdditionalNodesLoad(C03Contract):
     refs = 8
 
     def env(self, vc):
-        return {'dict': dict}
+        return {'dict': vc_dict}
 
     def setup(self, vc):
         s = self.base(vc, CGraph)
-        s.cls = ClsProxy(__name__='AdditionalNodesLoader')
+        s.cls = TreeCls(s.cx, self.target.rsplit('.', 1)[0])
+        s.h0 = s.H.snap()               # class-level dict constants exist before the call
         s.batch_index = _Opaque('batch_index')
         s.context = NS(batch_size=_Opaque('context.batch_size'), num_submissions=_Opaque('context.num_submissions'), seed=_Opaque('context.seed'))
         return s, (s.cls, s.context, s.G, s.batch_index), {}
 
     def requires(self, s):
         th, g, h = s.th, s.g0, s.h0
-        return [('networkx representation invariant', graph_wf(th, g, h)), ("graph['name'] is present", h.has(g.gref, th.klit('name')))]
+        return [('networkx representation invariant', graph_wf(th, g, h)), ("graph['name'] is present", h.has(g.gref, th.klit('name'))),
+                ('class-level dicts are not dicts of the net', z3.And([z3.And(d.ref != g.gref, th.forall_nodes(lambda x, d=d: z3.Implies(g.node(x), g.nattr(x) != d.ref)))
+                                                                      for d in s.cls.class_dicts()] or [z3.BoolVal(True)]))]
 
     def ensures(self, s, result):
         cx, th, g, h0, h1 = s.cx, s.th, s.g0, s.h0, s.H.snap()
@@ -1934,7 +1996,8 @@ class AdditionalNodesLoad(C03Contract):
         return [('returns the net', z3.BoolVal(result is s.G)), ('the graph structure is not modified', _same_graph(s)),
                 ('_batch_size, if present, gets output = the batch size of the context',
                  z3.Implies(g.node(BSn), z3.And(h1.has(g.nattr(BSn), OUT), h1.val(g.nattr(BSn), OUT) == th.opaque(s.context.batch_size)))),
-                ('_meta, if present, gets output = a new dict {batch_index, submission_index, master_seed, model_name}',
+                ('_meta, if present, gets output = a NEW dict (one that did not exist before this call: not shared with an earlier load, the class or the context) '
+                 '{batch_index, submission_index, master_seed, model_name}',
                  z3.Implies(g.node(Mn), z3.And([h1.has(g.nattr(Mn), OUT), th.Val.is_vref(h1.val(g.nattr(Mn), OUT)), z3.Not(h0.alloc(m)), h1.alloc(m)] +
                                                [z3.And(h1.has(m, th.klit(k)), h1.val(m, th.klit(k)) == v) for k, v in entries] +
                                                [th.forall_keys(lambda k: z3.Implies(z3.And([k != e for e in ekeys]), z3.Not(h1.has(m, k))))]))),
@@ -2172,6 +2235,59 @@ class GetExecutionOrder(C03Contract):
         return out
 
 
+class TwoLoads(C03Contract):
+    """two consecutive AdditionalNodesLoader.load calls (REAL body, inlined twice) for two loaded nets and two batches on ONE heap: the first net's
+    run metadata is still that of the first batch afterwards (several batches are pending before any is executed)"""
+    target = '@verif/lemmas/c03_lemmas.py::two_loads'
+    label = 'AdditionalNodesLoader.load twice'
+    lits = ('name', 'output', 'batch_index', 'submission_index', 'master_seed', 'model_name', '?other0')
+    nodes, refs = 3, 10
+
+    def env(self, vc):
+        s = vc._s
+        from pyvc.engine import inline
+        real = inline(vc, LDF + '::AdditionalNodesLoader.load')
+        return {'dict': vc_dict, 'load': lambda *a: real(s.cls, *a)}
+
+    def setup(self, vc):
+        s = self.base(vc, CGraph)
+        s.G1, s.G2 = s.G, CGraph(s.H, 'G2', 'sym')
+        s.cls = TreeCls(s.cx, LDF + '::AdditionalNodesLoader')
+        s.g1, s.g2, s.h0 = s.G1.snap(), s.G2.snap(), s.H.snap()
+        mk = lambda j: (NS(batch_size=_Opaque('context%d.batch_size' % j), num_submissions=_Opaque('context%d.num_submissions' % j), seed=_Opaque('context%d.seed' % j)),
+                        _Opaque('batch_index%d' % j))
+        (s.ctx1, s.b1), (s.ctx2, s.b2) = mk(1), mk(2)
+        return s, (s.ctx1, s.G1, s.b1, s.ctx2, s.G2, s.b2), {}
+
+    def requires(self, s):
+        th, h, a, b = s.th, s.h0, s.g1, s.g2
+        N = th.klit('name')
+        r = [('networkx representation invariant (both nets)', z3.And(graph_wf(th, a, h), graph_wf(th, b, h))),
+             ("graph['name'] is present (both nets)", z3.And(h.has(a.gref, N), h.has(b.gref, N))),
+             ('the two loaded nets are different objects (client.load_data copies the compiled net)',
+              z3.And(a.gref != b.gref, th.forall_nodes(lambda x, y: z3.Implies(z3.And(a.node(x), b.node(y)), a.nattr(x) != b.nattr(y)), 2),
+                     th.forall_nodes(lambda x: z3.And(z3.Implies(a.node(x), a.nattr(x) != b.gref), z3.Implies(b.node(x), b.nattr(x) != a.gref)))))]
+        for d in s.cls.class_dicts():
+            r.append(('class-level dicts are not dicts of the nets', z3.And(d.ref != a.gref, d.ref != b.gref, th.forall_nodes(
+                lambda x, d=d: z3.And(z3.Implies(a.node(x), a.nattr(x) != d.ref), z3.Implies(b.node(x), b.nattr(x) != d.ref))))))
+        return r
+
+    def ensures(self, s, result):
+        cx, th, h1 = s.cx, s.th, s.H.snap()
+        Mn, BSn, OUT = cx.node_lit('_meta'), cx.node_lit('_batch_size'), th.klit('output')
+        out = []
+        for j, (g, ctx, b) in enumerate(((s.g1, s.ctx1, s.b1), (s.g2, s.ctx2, s.b2)), 1):
+            m = th.Val.ref_of(h1.val(g.nattr(Mn), OUT))
+            entries = [('batch_index', th.opaque(b)), ('submission_index', th.opaque(ctx.num_submissions)), ('master_seed', th.opaque(ctx.seed)),
+                       ('model_name', s.h0.val(g.gref, th.klit('name')))]
+            out.append(('after BOTH loads, the _meta output of net %d holds the run metadata of ITS batch' % j,
+                        z3.Implies(g.node(Mn), z3.And([h1.has(g.nattr(Mn), OUT), th.Val.is_vref(h1.val(g.nattr(Mn), OUT))] +
+                                                      [z3.And(h1.has(m, th.klit(k)), h1.val(m, th.klit(k)) == v) for k, v in entries]))))
+            out.append(('after BOTH loads, the _batch_size output of net %d is the batch size of ITS context' % j,
+                        z3.Implies(g.node(BSn), z3.And(h1.has(g.nattr(BSn), OUT), h1.val(g.nattr(BSn), OUT) == th.opaque(ctx.batch_size)))))
+        return out
+
+
 # ====================================================================== ghost lemmas: exec_sem
 def params_distinct_at(th, g, x):
     """model_ok (C14): the positional params on the in-edges of x are pairwise distinct"""
@@ -2282,7 +2398,7 @@ class LemmaExecSemStep(LemmaSetup):
 
 CONTRACTS = [Run(), Execute()] + [GetExecutionOrder(m) for m in ('no cache', 'miss, no sort order cached', 'miss, sort order cached', 'hit')] + [ OutputCompile(), AdditionalNodesCompile(), NbunchAncestors(), ReduceCompile(),
              MakeObservedCopy('copy'), MakeObservedCopy('operation'), ObservedCompileFinal(), ObservedCompileWiring(), ObservedLoad(), AdditionalNodesLoad(),
-             LemmaPackUnique(), LemmaExecSemStep()]
+             TwoLoads(), LemmaPackUnique(), LemmaExecSemStep()]
 
 TRUSTED_BASE = ['pyvc engine: proxies, path forking, loop cutting, instrumenter rewrites D1-D2, T1-T6 (+ T6d dict comprehension, T6g generator expression as list comprehension)',
                 'pyvc.nxspec: model of networkx.DiGraph / python dict heap / set / list (sorted = ordered permutation); sanity-tested on the installed networkx every run',
@@ -2380,7 +2496,7 @@ def replay_refuted(cname, rf):
         _cache['run'] = b.run('quick', 0)
     fs = [f for f in _cache['run']['failures'] if f['signature'] not in known]
     pref = {'get_execution_order': ['c03:calls', b.SIG_F15, 'c03:exception'], 'ObservedCompiler': [b.SIG_F10, 'c03:value'], '_run': ['c03:value'],
-            'Loader': ['c03:value', 'c03:exception']}
+            'Loader': ['c03:value', 'c03:exception'], 'AdditionalNodesLoader': [b.SIG_PENDING], 'two_loads': [b.SIG_PENDING]}
     want = [sg for k, sgs in pref.items() if k in cname for sg in sgs]
     fs.sort(key=lambda f: (want.index(f['signature']) if f['signature'] in want else len(want)))
     if fs:
